@@ -328,6 +328,10 @@ fn hist(args: &Args) {
         let chan_ids: Vec<ChannelId> =
             ids.iter().map(|(p, d)| ChannelId::new_from_peer_id_and_oid(p, *d)).collect();
         let with_setup: Vec<bool> = (0..k).map(|_| rng.chance(2, 3)).collect();
+        // some channels get a permanent channel id at setup (restore must still derive from id0)
+        let perm_ids: Vec<Option<ChannelId>> = (0..k)
+            .map(|_| if rng.chance(1, 2) { Some(ChannelId::new(&rng.bytes32())) } else { None })
+            .collect();
         let mut perms = permutations(k);
         if !thorough && perms.len() > 6 {
             // quick: first, last and four seeded picks of the 24 orders
@@ -362,7 +366,7 @@ fn hist(args: &Args) {
                     Op::Setup(i) => {
                         let r = node.setup_channel(
                             chan_ids[*i].clone(),
-                            None,
+                            perm_ids[*i].clone(),
                             make_setup(*i, run_ix),
                             &lightning_signer::bitcoin::bip32::DerivationPath::master(),
                         );
@@ -599,7 +603,8 @@ fn store(args: &Args) {
                 build_commitment_secret(&cseed, idx & INITIAL)
             }
         };
-        let kind = match case % 8 {
+        let kind = match case % 9 {
+            8 => "repeat-min",
             0 => "descending",
             1 => "gaps",
             2 => "wrong-secret",
@@ -643,6 +648,20 @@ fn store(args: &Args) {
                         s = secret_of(this);
                         if rng.chance(1, 3) {
                             s[0] ^= 0x80;
+                        }
+                    },
+                // the boundary of  get_min_seen_secret() <= idx : the current minimum again, other secret
+                "repeat-min" =>
+                    if step > 0 && (idx + 1) % 2 == 1 && rng.chance(2, 3) {
+                        // lowest bit set: no consistency loop protects slot 0, only the minimum test does
+                        this = idx + 1;
+                        s = secret_of(this);
+                        s[rng.below(32) as usize] ^= 1 << rng.below(8);
+                    } else if step > 0 && rng.chance(1, 4) {
+                        this = idx + 1;
+                        s = secret_of(this);
+                        if rng.chance(1, 2) {
+                            s[rng.below(32) as usize] ^= 1 << rng.below(8);
                         }
                     },
                 "late-start" =>
